@@ -14,6 +14,15 @@ theorem handlePUBREC_unknown (p m : Nat) (w : World) (h : Ents.lookup w.ents (w.
   unfold handlePUBREC
   generalize encodePUBREL (m : Int) = E
   simp [Step.read, h, Step.ok]
+/-- an acknowledgement whose type does not fit the QoS of the pending message changes nothing either: PUBACK bearing the
+    identifier of a QoS 2 message, PUBREC bearing that of a QoS 1 message -/
+theorem handlePUBACK_wrong_qos (p m rid : Nat) (w : World) (h : Ents.lookup w.ents (w.paddr p) .pub m = some rid)
+    (hq : (w.req rid).qos ≠ 1) : handlePUBACK p m w = (w, none) := by simp [handlePUBACK, Step.read, h, Step.ok, hq]
+theorem handlePUBREC_wrong_qos (p m rid : Nat) (w : World) (h : Ents.lookup w.ents (w.paddr p) .pub m = some rid)
+    (hq : (w.req rid).qos ≠ 2) : handlePUBREC p m w = (w, none) := by
+  unfold handlePUBREC
+  generalize encodePUBREL (m : Int) = E
+  simp [Step.read, h, Step.ok, hq]
 theorem handlePUBCOMP_unknown (p m : Nat) (w : World) (h : Ents.lookup w.ents (w.paddr p) .rel m = none) :
     handlePUBCOMP p m w = (w, none) := by simp [handlePUBCOMP, Step.read, h, Step.ok]
 theorem handleSubUnsubAck_unknown (p : Nat) (isSub : Bool) (m : Nat) (v : Val) (w : World)
@@ -122,7 +131,7 @@ theorem processPacket_undecodable (p : Nat) (h0 : Nat) (rest : Bytes) (w : World
     number on the wire), the entry leaves the window, and the window is refilled -/
 theorem handlePUBACK_effect {w : World} (h : WInv w) (p : Nat) (ppr : Proto) (hpp : w.protos.get? p = some ppr)
     (hlive : ppr.lost = false) (hconn : ppr.state = .connected) (m rid : Nat)
-    (hl : Ents.lookup w.ents ppr.addr .pub m = some rid) :
+    (hl : Ents.lookup w.ents ppr.addr .pub m = some rid) (hq1 : (w.req rid).qos = 1) :
     ∃ t d, (w.req rid).alarm = some t ∧ (w.req rid).dfd = some d ∧ d ∉ w.fired ∧ (w.req rid).msgId = m ∧
       handlePUBACK p m w = (refillW p false (Ents.count (Ents.remove w.ents ppr.addr .pub m) ppr.addr .queue)
         (fireD (dropArmed w ⟨ppr.addr, .pub, m, rid⟩ t) d (.fired d (.ok (.int m)))), none) := by
@@ -132,7 +141,7 @@ theorem handlePUBACK_effect {w : World} (h : WInv w) (p : Nat) (ppr : Proto) (hp
   obtain ⟨t, d, p0, ht, hpe, hd, hnf, hkey⟩ := window_entry_facts h p ppr hpp hlive hconn he rfl hq
   simp only at ht hpe hd hkey
   refine ⟨t, d, ht, hd, hnf, hkey, ?_⟩
-  simp only [handlePUBACK, read_apply, hpa, hl]
+  simp only [handlePUBACK, read_apply, hpa, hl, ne_eq, hq1, not_true_eq_false, ↓reduceIte]
   have s1 : cancelAlarm (w.req rid).alarm w = ({ w with timers := cancelT w t }, none) := by
     rw [ht]; exact cancelTimer_pending w t _ hpe
   rw [seq_ok s1]
